@@ -22,7 +22,7 @@ TNew      == IsEvent("pnew") /\ PNewCore(Ev.min, Ev.max, Ev.rules, Ev.model)
 TNewTry   == IsEvent("pnew_try") /\ ~Ev.panic /\ PNewTryCore(Ev.min, Ev.max, Ev.model, Ev.textok, Ev.ok)
 TArrive   == IsEvent("arrive") /\ ArriveCore(Ev.q, Rng(Ev.keys), Ev.names, Ev.fail, Ev.failmay, Ev.ord)
 TPop      == IsEvent("pop") /\ (CheckLocks => Ev.locked = 1) /\ PopCore(Ev.q, Ev.i, Ev.len)
-TSpin     == IsEvent("spin") /\ SpinCore
+TSpin     == IsEvent("spin") /\ SpinCore(Ev.q)
 TPeek     == IsEvent("peek") /\ PeekCore(Ev.q, Ev.key, Ev.val)
 TArgPair  == IsEvent("argpair") /\ ArgPairCore(Ev.a, Ev.b)
 TRule     == IsEvent("rule") /\ RuleRunCore(Ev.q, Ev.r, Ev.tag)
